@@ -20,16 +20,17 @@ import (
 
 // Program is the immutable, shared part: SSA program plus tables.
 type Program struct {
-	Prog      *ssa.Program
-	Redirects map[string]*ssa.Function // real function name -> model function
-	InitPkgs  map[string]bool          // packages whose init runs eagerly at path start
-	LazyInit  map[string]bool          // packages whose init may run lazily on first global access
-	Tier      string
-	ModelsPkg *ssa.Package
-	ApiPath   string          // import path of the harness API package
-	Summarize map[string]bool // functions explored as merged pure-callee summaries
-	TreeMu    sync.Mutex
-	TreeCache map[string]*parse.Tree
+	Prog          *ssa.Program
+	Redirects     map[string]*ssa.Function // real function name -> model function
+	InitPkgs      map[string]bool          // packages whose init runs eagerly at path start
+	LazyInit      map[string]bool          // packages whose init may run lazily on first global access
+	initStoreMemo map[*ssa.Package]map[*ssa.Global]bool
+	Tier          string
+	ModelsPkg     *ssa.Package
+	ApiPath       string          // import path of the harness API package
+	Summarize     map[string]bool // functions explored as merged pure-callee summaries
+	TreeMu        sync.Mutex
+	TreeCache     map[string]*parse.Tree
 }
 
 type pathEnd struct {
@@ -161,6 +162,7 @@ type Machine struct {
 	writeLogOn   bool
 	watchGlobals bool
 	mergoNoDeref bool
+	pooledAccess int // accesses to objects after they were handed back to a sync.Pool
 	syncDepth    int // > 0 while a lock is held / inside Once.Do / in an atomic operation
 	fmtSymBytes  []*sym.Term
 	changedWhere []string
@@ -259,6 +261,7 @@ func (m *Machine) RunPath(h *ssa.Function, prefix []int) (res PathResult, pendin
 	m.writes, m.writeLogOn, m.changedWhere, m.writeHook = nil, false, nil, nil
 	m.watchGlobals = false
 	m.syncDepth = 0
+	m.pooledAccess, m.readHook = 0, nil
 	m.Harness = h.Name()
 
 	func() {
@@ -328,6 +331,32 @@ func importsDepth(p *types.Package) int {
 	return d
 }
 
+// initStores returns the package-level variables that the package initialiser assigns.
+func (p *Program) initStores(pkg *ssa.Package) map[*ssa.Global]bool {
+	p.TreeMu.Lock()
+	defer p.TreeMu.Unlock()
+	if p.initStoreMemo == nil {
+		p.initStoreMemo = map[*ssa.Package]map[*ssa.Global]bool{}
+	}
+	if r, ok := p.initStoreMemo[pkg]; ok {
+		return r
+	}
+	r := map[*ssa.Global]bool{}
+	if init := pkg.Func("init"); init != nil {
+		for _, b := range init.Blocks {
+			for _, in := range b.Instrs {
+				if st, ok := in.(*ssa.Store); ok {
+					if g, ok := st.Addr.(*ssa.Global); ok {
+						r[g] = true
+					}
+				}
+			}
+		}
+	}
+	p.initStoreMemo[pkg] = r
+	return r
+}
+
 func (m *Machine) initPkg(p *ssa.Package) {
 	if m.inited[p] {
 		return
@@ -360,6 +389,11 @@ func (m *Machine) global(g *ssa.Global) *Cell {
 		path := g.Pkg.Pkg.Path()
 		if m.P.LazyInit[path] || m.P.InitPkgs[path] {
 			m.initPkg(g.Pkg)
+		} else if m.lenient == 0 && m.P.initStores(g.Pkg)[g] {
+			// the package's initialiser is never executed (it is on the list of
+			// packages that are modelled): a variable it assigns would be read as
+			// its zero value (a nil error sentinel, an empty table) - refuse
+			m.notEnc("variable %s of package %s, whose initialiser is not executed", g.Name(), path)
 		}
 	}
 	return c
